@@ -115,37 +115,51 @@ def theorem_at(path, line_no):
     return None
 
 
-def forbidden_scan():
-    hits = []
-    for root, _dirs, files in os.walk(LEAN):
-        if ".lake" in root:
+def import_closure(module):
+    """Files of this project reachable from `module` through `import` lines."""
+    seen, todo, files = set(), [module], []
+    while todo:
+        m = todo.pop()
+        if m in seen:
             continue
-        for fn in files:
-            if not fn.endswith(".lean"):
-                continue
-            p = os.path.join(root, fn)
-            in_block = 0
-            for n, line in enumerate(open(p, errors="replace"), 1):
-                # strip comments (block comments tracked coarsely, line comments exactly)
-                s = line
-                out = ""
-                i = 0
-                while i < len(s):
-                    if s.startswith("/-", i):
-                        in_block += 1
-                        i += 2
-                    elif s.startswith("-/", i) and in_block:
-                        in_block -= 1
-                        i += 2
-                    elif in_block:
-                        i += 1
-                    elif s.startswith("--", i):
-                        break
-                    else:
-                        out += s[i]
-                        i += 1
-                if FORBIDDEN_RE.search(out):
-                    hits.append(f"{os.path.relpath(p, LEAN)}:{n}: {line.strip()}")
+        seen.add(m)
+        path = os.path.join(LEAN, *m.split(".")) + ".lean"
+        if not os.path.exists(path):
+            continue
+        files.append(path)
+        for line in open(path, errors="replace"):
+            mm = re.match(r"\s*(?:public\s+)?import\s+(\S+)", line)
+            if mm and (mm.group(1).startswith("DnsVerif") or mm.group(1).startswith("Driver")):
+                todo.append(mm.group(1))
+    return files
+
+
+def forbidden_scan(pid):
+    """grep for escape hatches in every project file the property theorems (and the driver) import."""
+    hits = []
+    files = set(import_closure(f"DnsVerif.Props.{pid}")) | set(import_closure("Driver.Main"))
+    for p in sorted(files):
+        in_block = 0
+        for n, line in enumerate(open(p, errors="replace"), 1):
+            s = line
+            out = ""
+            i = 0
+            while i < len(s):
+                if s.startswith("/-", i):
+                    in_block += 1
+                    i += 2
+                elif s.startswith("-/", i) and in_block:
+                    in_block -= 1
+                    i += 2
+                elif in_block:
+                    i += 1
+                elif s.startswith("--", i):
+                    break
+                else:
+                    out += s[i]
+                    i += 1
+            if FORBIDDEN_RE.search(out):
+                hits.append(f"{os.path.relpath(p, LEAN)}:{n}: {line.strip()}")
     return hits
 
 
@@ -199,7 +213,7 @@ def proof_obligations(pid, tier):
             res["discharged"].append(key)
     if rc != 0 and not res["broken"]:
         res["broken"].append(("audit", out[-600:]))
-    hits = forbidden_scan()
+    hits = forbidden_scan(pid)
     if hits:
         res["broken"].append(("forbidden-constructs", "; ".join(hits[:10])))
     if tier == "thorough" and not res["broken"]:
